@@ -102,7 +102,9 @@ fn main() {
         peek.remove(0);
     }
     let a = parse_vec(peek);
-    std::process::exit(dispatch(&a, digest_only));
+    // a panic outside a guarded call is a harness error (exit 2), never a verdict
+    let code = std::panic::catch_unwind(|| dispatch(&a, digest_only)).unwrap_or(2);
+    std::process::exit(code);
 }
 
 fn parse_vec(v: Vec<String>) -> Args {
